@@ -107,14 +107,15 @@ pub open spec fn tree_infos_ok(infos: Seq<StoreInfo>) -> bool {
     forall|i: int| 0 <= i < infos.len() ==> is_node_write(#[trigger] infos[i]) || (i == 0 && infos[0].store == Store::Tree
         && infos[0].info_type == StoreInfoType::Size && infos[0].miss)
 }
-/// the writes of an oplog flush: header slot write(s), then truncate to 8192
+/// the writes of an oplog flush: header slot write, then truncate to 8192; when clearing traces the second slot is rewritten
+/// only AFTER the truncate (C02: the first write makes the pending entries stale, the second would make them current again)
 pub open spec fn oplog_flush_infos_ok(infos: Seq<StoreInfo>, h: Header, bits: [bool; 2], clear_traces: bool) -> bool {
     let first = bits[0] != bits[1];
     if clear_traces {
         infos.len() == 3
             && is_slot_write(infos[0], if first { 0int } else { 4096int }, h, if first { !bits[0] } else { !bits[1] }, 4096)
-            && is_slot_write(infos[1], if first { 4096int } else { 0int }, h, if first { !bits[1] } else { !bits[0] }, 4096)
-            && is_truncate(infos[2], Store::Oplog, 8192)
+            && is_truncate(infos[1], Store::Oplog, 8192)
+            && is_slot_write(infos[2], if first { 4096int } else { 0int }, h, if first { !bits[1] } else { !bits[0] }, 4096)
     } else {
         infos.len() == 2
             && is_slot_write(infos[0], if first { 0int } else { 4096int }, h, if first { !bits[0] } else { !bits[1] }, 8 + 2 * header_enc(h).len() as int)
